@@ -207,6 +207,48 @@ def _c19(tier):
     }
 
 
+def _c02(tier):
+    q = tier == 'quick'
+    return {
+        'runs': [('cand_claim', {}, 500 if q else 9000)],
+        'level': 'exploration',
+        'rule': 'a seeded set-up history (12-32 requests: nested and sharing '
+        'providers, inventories with reserved/ratio/unit constraints, prior '
+        'allocations) builds a state; then up to 6 generated GET '
+        '/allocation_candidates queries (unsuffixed + up to 3 suffixed '
+        'groups with overlapping classes, group_policy, required/forbidden/'
+        'any-of traits, member_of, in_tree, root_required, same_subtree) at '
+        'microversions 1.10-1.39. For every response: decomposition against '
+        'the query, provider summaries against the dump, and every returned '
+        'entry (first 25) is sent unchanged as PUT /allocations of a fresh '
+        'consumer from a snapshot of the same state. distinct_nontrivial '
+        'counts DISTINCT stored states in which at least one query was '
+        'evaluated; candidates returned / claims are in reach_probes.',
+        'assumptions': COMMON_ASSUMPTIONS + [
+            'no independent notion of WHICH candidates should exist is used '
+            '(that is C03, not applicable to this family)'],
+    }
+
+
+def _c20(tier):
+    q = tier == 'quick'
+    return {
+        'runs': [('cand_limit', {}, 260 if q else 5000)],
+        'level': 'exploration',
+        'rule': 'states and queries as for C02; for each (state, query) the '
+        'unlimited result M with randomisation off, then every limit 1..|M|+1 '
+        '(sampled above 12) under both settings of '
+        'randomize_allocation_candidates and 8 seeds of the PRNG the code '
+        'draws from (owned and re-seeded by the simulator). Below 1.34 '
+        'results are compared as multisets (mappings, which tell equal '
+        'allocations apart, are not exposed there). distinct_nontrivial '
+        'counts DISTINCT stored states with a non-empty unlimited result.',
+        'assumptions': COMMON_ASSUMPTIONS,
+    }
+
+
+PLANS['C02'] = _c02
+PLANS['C20'] = _c20
 PLANS['C17'] = _c17
 PLANS['C18'] = _c18
 PLANS['C19'] = _c19
